@@ -11,7 +11,7 @@ from ref import pkgwriter, selref
 B4 = ['B1', 'B2', 'B3', 'B5']
 
 
-def build(d, tag, fmt, n_models, perm=None, n_cols=2, nan_col=False, seed=0, mode='2d', text_col=False):
+def build(d, tag, fmt, n_models, perm=None, n_cols=2, nan_col=False, seed=0, mode='2d', text_col=False, par_gz=False):
     """Package whose convolved files and parameter table are both in `perm` order.  Returns (model_dir, info dict)."""
     names = ['pm_%s' % 'kcxaqfzb'[i] for i in range(n_models)]
     perm = list(range(n_models)) if perm is None else list(perm)
@@ -29,7 +29,7 @@ def build(d, tag, fmt, n_models, perm=None, n_cols=2, nan_col=False, seed=0, mod
     pcols = {k: v[perm] for k, v in cols.items()}
     if text_col:
         pcols['DUST'] = np.array(['dust_%d' % i for i in perm])
-    pkgwriter.write_parameters(md, order_names, pcols)
+    pkgwriter.write_parameters(md, order_names, pcols, gz=par_gz)
     if apdep:
         ap, t = fc.grid3d(seed * 10 + 11, n_models=n_models, n_ap=3, bands=B4)
         for ib, b in enumerate(B4):
